@@ -12,7 +12,7 @@
    as an oracle that tiles the buffer, C03), the C glue and the keyboard-layout tables, wall-clock time. *)
 From Coq Require Import NArith List Bool Arith Lia.
 From LC Require Import Base.Lib Gen.Keyboard_gen Model.Keyboard Gen.Editor_gen Model.Syllable Model.Composition Model.Conversion Model.Editor Model.EditorRun
-     Model.EdInst Proofs.CompositionProofs Proofs.EdInstProofs Proofs.EditorInv Proofs.EditorWitness Proofs.EditorSelect Proofs.NoPanic Proofs.KeyEventsOk Proofs.GraphPath Model.Engine Proofs.EngineProofs Proofs.SimpleEngineProofs.
+     Model.EdInst Proofs.CompositionProofs Proofs.EdInstProofs Proofs.EditorInv Proofs.EditorWitness Proofs.EditorSelect Proofs.NoPanic Proofs.KeyEventsOk Proofs.GraphPath Model.Engine Proofs.EngineProofs Proofs.SimpleEngineProofs Model.CapiKeys Proofs.CapiKeysProofs.
 From Coq Require Import ZArith Permutation.
 Import ListNotations.
 Open Scope nat_scope.
@@ -341,6 +341,28 @@ Proof.
   - exact m_conv_tiles.
 Qed.
 Print Assumptions C01_no_history_panics_or_hangs_all_layouts_modelled_engines.
+
+(* ---- through the C API: the key-entry glue of capi/src/io.rs (Model/CapiKeys.v) ---- *)
+(* The context = editor (all layouts, modelled engines) + keyboard + selection keys.  Every finite sequence of
+   chewing_handle_Space / Esc / Enter / Del / Backspace / Tab / Left / Right / Up / Down / Home / End / PageUp /
+   PageDown / ShiftLeft / ShiftRight / ShiftSpace / Capslock (CHandle code mods), chewing_handle_Default /
+   chewing_handle_CtrlNum / chewing_handle_Numlock with ANY int (`key as u8`), chewing_set_KBType with ANY int at
+   any moment (the 17 rows of the generated KB table; anything else selects the default), chewing_set_selKey,
+   chewing_cand_choose_by_index with ANY int, chewing_cand_open / close, chewing_commit_preedit_buf,
+   chewing_clean_preedit_buf / clean_bopomofo_buf, chewing_Reset, and any editor operation (options, engine,
+   user phrases) returns - no Panic, no OutOfFuel - and keeps the context invariant.  The events handed to the
+   editor are the ones the eight keyboards build (complete sweeps in KeyEventsOk / KeyboardProofs). *)
+Theorem C01_no_sequence_of_C_calls_panics_or_hangs : forall ss d ab t0 ops,
+  ss_good ss -> ss_cursor ss = None -> md_fine d -> Forall cop_fine ops ->
+  fine (crun m_conv (cx_init d ab ss t0) ops).
+Proof.
+  intros ss d ab t0 ops Hg Hf Hd Hops.
+  apply (crun_fine m_conv m_conv_tiles ss Hg Hf); [exact Hops|].
+  constructor; [|vm_compute; reflexivity].
+  unfold cx_init, ml_init. cbn [cx_ed].
+  eapply (init_inv md_ops lay_ops); try eassumption.
+Qed.
+Print Assumptions C01_no_sequence_of_C_calls_panics_or_hangs.
 
 (* the premises hold somewhere non-trivial: a dictionary with a system and a user phrase, the conversion
    that gives every symbol its own interval, a history that types, opens the list, pages and commits *)
